@@ -28,14 +28,14 @@ PROPS = {
     "C01": {"families": [("hist", "general", 500), ("hist", "keys", 300)], "obligations": P("Props.C01", "Lemmas.Order", "Lemmas.Search", "Lemmas.Assoc"), "rule": HIST_RULE},
     "C02": {"families": [("hist", "search", 500), ("hist", "index", 200)], "obligations": P("Props.C02", "Props.C01", "Lemmas.Order", "Lemmas.Search"), "rule": HIST_RULE},
     "C03": {"families": [("hist", "index", 600)], "obligations": P("Props.C03"), "rule": HIST_RULE},
-    "C04": {"families": [("hist", "search", 600)], "obligations": P("Props.C04", "Props.C02", "Lemmas.Order", "Lemmas.Search"), "rule": HIST_RULE},
+    "C04": {"families": [("hist", "search", 600)], "obligations": P("Props.C04Paging", "Props.C04", "Props.C02", "Props.C13", "Lemmas.Order", "Lemmas.Search"), "rule": HIST_RULE},
     "C05": {"families": [("hist", "cond", 600), ("race", None, 1)], "obligations": P("Props.C05") + [(TL, "Minidyn.Tie.wellLocked_generated_v1"), (TL, "Minidyn.Tie.wellLocked_generated_v2")], "rule": HIST_RULE},
     "C06": {"families": [("match", None, 6000)], "obligations": P("Props.C06") + TABLE_TIES + EVAL_TIES, "rule": EXPR_RULE},
     "C07": {"families": [("update", None, 6000)], "obligations": P("Props.C07") + TABLE_TIES + EVAL_TIES, "rule": EXPR_RULE},
     "C08": {"families": [("hist", "fail", 600)], "obligations": P("Props.C08"), "rule": HIST_RULE},
     "C09": {"families": [("match", None, 3000), ("update", None, 3000), ("garbage", None, 4000)], "obligations": P("Props.C09") + TABLE_TIES, "rule": EXPR_RULE},
     "C10": {"families": [("hist", "values", 500), ("poke", None, 80)], "obligations": P("Props.C10"), "rule": HIST_RULE},
-    "C11": {"families": [("race", None, 1)], "obligations": [(TL, "Minidyn.Tie.wellLocked_generated_v1"), (TL, "Minidyn.Tie.wellLocked_generated_v2"),
+    "C11": {"families": [("race", None, 1)], "obligations": P("Props.C11") + [(TL, "Minidyn.Tie.wellLocked_generated_v1"), (TL, "Minidyn.Tie.wellLocked_generated_v2"),
                                                               (TL, "Minidyn.Tie.wellLocked_nonvacuous")], "rule": "pairs of client methods run concurrently under the race detector"},
     "C12": {"families": [("hist", "numbers", 400), ("num", None, 3000), ("update", None, 2500), ("match", None, 1500)], "obligations": P("Props.C12"), "rule": HIST_RULE},
     "C13": {"families": [("hist", "keys", 600)], "obligations": P("Props.C13"), "rule": HIST_RULE},
